@@ -404,6 +404,13 @@ def _(env, I, T):
     return _req(env, 'PUT', '/api/multi-period-streams/.add?ajax=1', json_body=body, headers=env.rc.bearer())
 
 
+@action('create mps whose period has the id of a period of mpsa (p1), other timing and tracks', True)
+def _(env, I, T):
+    # period ids are unique within one multi-period stream only
+    body = _mps_body(I, T, 'mpse', [('p1', 'synirr', 'PT1S', 'PT3S', [1], None)])
+    return _req(env, 'PUT', '/api/multi-period-streams/.add?ajax=1', json_body=body, headers=env.rc.bearer())
+
+
 @action('create mps without periods')
 def _(env, I, T):
     body = _mps_body(I, T, 'mpsd', [])
@@ -797,6 +804,22 @@ def apply(env, name, fn, acc, check_all=True):
             if left:
                 bad(f'delete-left-owned|{kind}|' + ','.join(sorted({t for t, _ in left})),
                     f'deleting the {kind} left rows it owns behind: {sorted(left, key=repr)[:5]}')
+    if name.startswith('create mps'):
+        # creating an object is no deletion at all and owns nothing that exists already: a row that was there before
+        # is still there, and the rows of other (multi-period) streams are as they were
+        gone, differs = set(), set()
+        for t in ('Stream', 'media_file', 'Blob', 'mp_stream', 'period', 'adaptation_set', 'key', 'mediafile_keys'):
+            for k, v in pre.get(t, {}).items():
+                if k not in post.get(t, {}):
+                    gone.add((t, k))
+                elif post[t][k] != v:
+                    differs.add((t, k))
+        if gone:
+            bad('create-removed-rows|' + ','.join(sorted({t for t, _ in gone})),
+                f'creating an object removed existing rows: {sorted(gone, key=repr)[:5]}')
+        if differs:
+            bad('create-changed-rows|' + ','.join(sorted({t for t, _ in differs})),
+                f'creating an object changed existing rows: {sorted(differs, key=repr)[:5]}')
     changed = pre_canon != canon(env, post)
     if check_all:
         service_up(env, post, bad, acc)
